@@ -46,6 +46,16 @@ def run(run):
     items += sweep.history_items(run, [c for c in cfgs if c not in sweep.HEAVY or run.thorough], ["wellformed"], 4 if run.thorough else 2)
     run.pmap("sweep.run_item", sweep.run_item, sweep.order_items(items), chunksize=1)
     run.part("validate_engine_f", lambda: sweep.validate_engine_f(run, 40 if run.thorough else 14))
+
+    def judge(job, o, base):
+        # C03 on the compiled build: no failure other than a documented refusal, and a well-formed consensus
+        if o["exc"] is not None and o["exc"][0] not in sweep.REFUSALS:
+            return dict(base, what=f"{job['config']}: raised {o['exc'][0]}: {o['exc'][1]} (compiled kernels, scheme written as {job['writing']})", check="raises")
+        if o["exc"] is None and sweep.jit_illformed(job, o):
+            return dict(base, what=f"{job['config']}: ill-formed consensus {o['consensus']} (compiled kernels)", check="wf")
+        return None
+    jw = {k: sweep.WRITINGS[k] for k in ("ints (custom)", "floats (pseudo-distance)", "ints and floats mixed")}
+    run.part("jit-conformance", lambda: sweep.jit_conformance(run, cfgs + ["BioConsert[Borda,Copeland]", "BioConsert[PickAPerm,Borda]", "BioConsert[BioCo]"], judge, writings=jw))
     run.extra["work_items"] = len(items)
     run.extra["stubs"] = sweep.install()
 
